@@ -145,7 +145,9 @@ def gen_cfg(rng):
 
 def gen_op(rng, cfg):
     k = rng.choice(["add", "append", "insert", "extend1", "extend", "iadd", "setvalue", "setitem", "setslice", "pop", "remove",
-                    "delitem", "clear", "add", "append", "insert"])
+                    "delitem", "clear", "add", "append", "insert", "childsem", "childsem"])
+    if k == "childsem":          # assignment to the semantic_id of a contained child (re-checked against list and siblings)
+        return (k, rng.randint(0, 3), rng.choice(SEMS))
     if k in ("add", "append", "extend1"):
         return (k, gen_spec(rng, cfg))
     if k == "insert":
@@ -230,6 +232,16 @@ def run_sdk(cfg, init, ops):
                 lst.value.remove(lst.value[op[1]])
             elif kind == "clear":
                 lst.value.clear()
+            elif kind == "childsem":
+                if len(lst.value) > 0:
+                    child = lst.value[op[1] % len(lst.value)]
+                    sems_before = [e.semantic_id for e in lst.value]
+                    try:
+                        child.semantic_id = sem_ref(op[2])
+                    except Exception:
+                        if [e.semantic_id for e in lst.value] != sems_before and not fail:
+                            fail = (k, "rejected semantic_id assignment to a list child changed a semantic id")
+                        raise
             code = 0
             v = violations_of_list(lst)
             if v and not fail:
@@ -243,6 +255,13 @@ def run_sdk(cfg, init, ops):
                     pass                                   # IndexError of the list operation itself
                 elif code < 1000:
                     fail = (k, f"{kind} raised {type(e).__name__}: {str(e)[:80]}")
+                elif kind == "childsem":
+                    idx = op[1] % max(len(existing), 1)
+                    others = existing[:idx] + existing[idx + 1:]
+                    me = existing[idx] if existing else None
+                    cand = (me[0], me[1], op[2], False) if me else None
+                    if not (cand and (code - 1000) in (violations_of_new(cfg, others, cand) & {107, 114})):
+                        fail = (k, f"semantic_id assignment to a list child raised AASd-{code - 1000} without a violation")
                 else:
                     # the number must be a constraint violated by one of the new elements against what it meets
                     ok_doc, seen = False, list(existing)
